@@ -1,6 +1,7 @@
 import Martian.Lexer
 import Martian.Regex
 import Martian.LexerId
+import Martian.FormatExp
 import Martian.Tokenizer
 import Martian.LexerActions
 import Gen.Facts
@@ -75,8 +76,55 @@ def actIntStr : Action Int → String
   | .error => "error"
   | .panic => "panic"
 
+/-! Comparison of C09's reduced tokenizer model (`Martian.FormatExp.lexAll`, value expressions
+only) with the full tokenizer model. -/
+
+def nameOfId (id : Nat) : String :=
+  match Gen.tokIds.find? (fun p => p.2 == id) with
+  | some p => p.1
+  | none => ""
+
+/-- the `FormatExp.Tok` a token of the full model corresponds to; `none` = the
+reduced model has no such token (`@include`, INVALID) -/
+def toFx (t : Martian.Tokenizer.Tok) : Option Martian.FormatExp.Tok :=
+  if t.id < 128 then some (.punct (UInt8.ofNat t.id))
+  else
+    let n := nameOfId t.id
+    if n == "LITSTRING" then some (.str t.text)
+    else if n == "NUM_INT" then some (.int t.text)
+    else if n == "NUM_FLOAT" then some (.float t.text)
+    else if n == "ID" then some (.id t.text)
+    else if n == "TRUE" then some .kTrue
+    else if n == "FALSE" then some .kFalse
+    else if n == "NULL" then some .kNull
+    else if n == "SELF" then some .kSelf
+    else if n == "DEFAULT" then some .kDefault
+    else if n == "INVALID" || n == "INCLUDE_DIRECTIVE" || n == "" then none
+    else if Martian.FormatExp.idTokens.contains n then some (.id t.text)
+    else some (.reserved t.text)
+
+/-- what the reduced model should return according to the full model -/
+def fxExpected (src : Bytes) : Option (List Martian.FormatExp.Tok) :=
+  (Martian.Tokenizer.lexAll src).mapM toFx
+
+/-- is there a byte ≥ 0x80 outside the string literals (per the full model's
+token stream, trivia and the unconsumed rest included)?  The reduced model
+declares such input invalid; the code accepts Unicode white space there and
+ends a comment before a rune decoding to U+FFFD. -/
+def nonAsciiOutsideStrings (src : Bytes) : Bool :=
+  let raw := Martian.Tokenizer.lexAllRaw src
+  raw.2.any (· ≥ 0x80) ||
+  raw.1.any fun t => nameOfId t.id != "LITSTRING" && t.text.any (· ≥ 0x80)
+
 def handle (op : String) (args : List String) : Option String :=
   match op, args with
+  -- FormatExp.lexAll (C09's reduced tokenizer) vs the full tokenizer model
+  | "fxcmp", [s] => do
+    let b ← bytesOfHex s
+    let same := Martian.FormatExp.lexAll b == fxExpected b
+    pure ((if same then "same" else "differ") ++ " " ++ boolStr (nonAsciiOutsideStrings b) ++ " " ++
+      (match Martian.FormatExp.lexAll b with | some l => toString l.length | none => "none") ++ " " ++
+      (match fxExpected b with | some l => toString l.length | none => "none"))
   -- the hand-written identifier recogniser
   | "id", [s] => do
     let b ← bytesOfHex s
